@@ -100,6 +100,14 @@ CLAIMS.update({
    design="3/C05"),
 })
 
+CLAIMS.update({
+ 'C14': dict(
+   text="Explicit-state breadth-first search (X2) over the real server with one open stream: peer SETTINGS from a 9-entry menu (empty, table size 0 / 8192, window 7 / 70000, frame size 16385 / 20000 + window, push off, header-list size + unknown id) up to 4 in a row, PINGs with 4 payloads (incl. the payloads h2 itself uses for shutdown and user pings) up to 3, stray SETTINGS ACK, stray PING ACK, peer ACK timing, DATA inside the window the peer is entitled to, WINDOW_UPDATE; application user ping, set_initial_window_size down / up, response with a 40 KB body; connection polls with open, budgeted (1 / 9 / 17 octets) and blocked writes. Invariants in every state from the wire: acks written <= SETTINGS received, PONG payloads a prefix of the PING payloads, every frame after an ACK obeys the acknowledged MAX_FRAME_SIZE / windows / ENABLE_PUSH, first header block after a lowered HEADER_TABLE_SIZE starts with the update. Epilogue: counts equal at quiescence, a stray SETTINGS ACK ended the connection with GOAWAY, no FLOW_CONTROL_ERROR before the peer's ACK of a lowered local window.",
+   note="A SETTINGS ACK that is still in flight when the application queues a local change is indistinguishable from a genuine ACK for the endpoint and is not called stray (DESIGN.md 8).",
+   tech="explicit-state BFS over the real implementation with canonical state hashing; wire-level ack/obedience monitors as invariants",
+   design="3/C14"),
+})
+
 NOT_YET = "check not built yet (work in progress; DESIGN.md section 3 describes the planned harness)"
 NA = {}
 
